@@ -175,6 +175,26 @@ def rules_taint(run):
                       'a loop that executes statechart code / emits events iterates in %s order' % show(t), lp)
     run.floor(n, 5, r, 'effectful loops')
 
+    # adjacency-dependent grouping of a declaration-ordered sequence
+    ng = 0
+    for fi in run.prog.functions():
+        if fi.outer is not None or not fi.module.name.startswith('sismic.interpreter'):
+            continue
+        for c in q.calls(fi.node):
+            nm = (dotted(c.func) or '').split('.')[-1]
+            if nm == 'groupby':
+                ng += 1
+                a0 = strip_cast(c.args[0]) if c.args else None
+                key = q.arg(c, 1, 'key')
+                presorted = isinstance(a0, ast.Call) and isinstance(a0.func, ast.Name) and a0.func.id == 'sorted' and key is not None and \
+                    q.arg(a0, None, 'key') is not None and q.unparse(q.arg(a0, None, 'key')) == q.unparse(key)
+                run.check(presorted, r, fi.short, 'itertools.groupby over an input sorted by the same key', 'adjacency-based grouping of a sequence in declaration order: '
+                          'the groups (hence the selected transitions) depend on the order in which items were declared', c)
+            elif nm == 'sorted_groupby':
+                ng += 1
+                run.ok(r, fi.short, 'full (order-independent) grouping ' + q.unparse(c)[:50], c)
+    run.floor(ng, 4, r, 'grouping sites in the interpreter')
+
     r = run.rule('C07.3', 'no id()/hash() value is used outside __hash__ definitions and dictionary keys (no address- or seed-dependent control)')
     n = 0
     for fi in run.prog.functions():
